@@ -157,7 +157,18 @@ def validate_chunk(spec, cfg, chunk_dir, timeout=1800, deque=False):
     if r.reached >= r.total:
         return len(lines), None
     bad = r.reached + 1
-    return len(lines), Rejection(chunk_dir, bad, lines[bad - 1], "no specification action explains this step", r.out)
+    out = r.out
+    dbg = cfg.replace(".cfg", "_debug.cfg")
+    if os.path.exists(os.path.join(SPEC, dbg)):
+        try:
+            r2 = tlc(spec, dbg, chunk_dir, workers=1, timeout=timeout, heap="3g", deque=deque)
+            i = r2.out.find('<< "')
+            j = r2.out.find('<<"TRACE_REACHED"')
+            if i >= 0:
+                out = "EXPLANATION (what the specification computed vs what was observed):\n" + r2.out[i:j if j > i else i + 6000][:6000] + "\n" + out[-3000:]
+        except Infra:
+            pass
+    return len(lines), Rejection(chunk_dir, bad, lines[bad - 1], "no specification action explains this step", out)
 
 
 def validate(spec, cfg, trace_path, cwd, nchunks=None, boundary=None, timeout=1800, deque=False):
